@@ -63,6 +63,8 @@ func instancesFor(prop, tier string) []*Instance {
 		c02Instances(add, thorough, 0)
 	case "C14":
 		c14Instances(add, thorough)
+	case "C04":
+		c04Instances(add, thorough)
 	case "C03":
 		c03Instances(add, thorough)
 	case "C15":
@@ -429,6 +431,80 @@ func c14Instances(add func(*Instance), thorough bool) {
 				pp := with(sh, "m", m, "opt", opt, "eff", 1, "L", 7, "xb", 0, "xm", -1, "sb", 0, "sm", 262143, "len", ln)
 				add(&Instance{Func: "VerifC14Step", Params: pp, Solvers: sv})
 			}
+		}
+	}
+}
+
+func c04Instances(add func(*Instance), thorough bool) {
+	type sh struct {
+		p    map[string]int
+		tier int
+	}
+	walk := []sh{
+		{P("ak", 2, "akeys", 3, "acow", 0, "ac0", 2, "ac1", 201), 0},
+		{P("ak", 1, "akeys", 0, "acow", 0, "ac0", 3), 0},
+		{P("ak", 1, "akeys", 2, "acow", 0, "ac0", 202), 0},
+		{P("ak", 2, "akeys", 4, "acow", 0, "ac0", 107, "ac1", 1), 0},
+		{P("ak", 2, "akeys", 3, "acow", 0, "ac0", 226, "ac1", 2), 0},
+		{P("ak", 0, "akeys", 0, "acow", 0), 0},
+		{P("ak", 3, "akeys", 0, "acow", 0, "ac0", 2, "ac1", 108, "ac2", 201), 1},
+		{P("ak", 2, "akeys", 3, "acow", 0, "ac0", 3, "ac1", 3), 1},
+	}
+	for _, b := range walk {
+		for w := 0; w <= 6; w++ {
+			tier := b.tier
+			if w >= 5 && b.p["ac0"] == 226 {
+				tier = 1 // NextMany over a run of up to 24 values x buffer-length choices: thousands of paths
+			}
+			add(&Instance{Func: "VerifC04Walk", Tier: tier, Params: with(b.p, "w", w, "stop", -1, "L", 2)})
+		}
+		for _, w := range []int{2, 3, 4} {
+			for _, stop := range []int{0, 1, 2, 3} {
+				add(&Instance{Func: "VerifC04Walk", Tier: b.tier, Params: with(b.p, "w", w, "stop", stop, "L", 2)})
+			}
+		}
+		for _, stop := range []int{-1, 1, 2} {
+			add(&Instance{Func: "VerifC04Ranges", Tier: b.tier, Params: with(b.p, "stop", stop, "L", 2)})
+		}
+	}
+	add(&Instance{Func: "VerifC04Ranges", Params: P("stop", -1, "L", 2, "ak", 3, "akeys", 3, "acow", 0, "ac0", 220, "ac1", 220, "ac2", 2)})
+	add(&Instance{Func: "VerifC04Ranges", Params: P("stop", -1, "L", 2, "ak", 2, "akeys", 4, "acow", 0, "ac0", 100, "ac1", 227)})
+	// protocol strings
+	steps := 3
+	if thorough {
+		steps = 4
+	}
+	for _, b := range []struct {
+		p      map[string]int
+		xb, xm int
+	}{
+		{P("ak", 2, "akeys", 3, "acow", 0, "ac0", 2, "ac1", 201), 0, -1},
+		{P("ak", 1, "akeys", 0, "acow", 0, "ac0", 202), 0, -1},
+		{P("ak", 2, "akeys", 4, "acow", 0, "ac0", 1, "ac1", 100), 65536 + 4150, 15},
+		{P("ak", 2, "akeys", 3, "acow", 0, "ac0", 220, "ac1", 1), 0, -1},
+		{P("ak", 1, "akeys", 2, "acow", 0, "ac0", 226), 0, -1},
+	} {
+		add(&Instance{Func: "VerifC04Protocol", Params: with(b.p, "steps", steps, "L", 2, "xb", b.xb, "xm", b.xm)})
+		add(&Instance{Func: "VerifC04Protocol", Params: with(b.p, "steps", 2, "L", 2, "xb", b.xb, "xm", b.xm)})
+	}
+	// unset iteration over windows of width <= 6
+	for _, b := range []struct {
+		p      map[string]int
+		sb, sm int
+	}{
+		{P("ak", 2, "akeys", 4, "acow", 0, "ac0", 2, "ac1", 201), 0, 262143},
+		{P("ak", 1, "akeys", 4, "acow", 0, "ac0", 202), 0, 65535},
+		{P("ak", 2, "akeys", 4, "acow", 0, "ac0", 1, "ac1", 100), 65536 + 4150, 15},
+		{P("ak", 2, "akeys", 4, "acow", 0, "ac0", 107, "ac1", 1), 56, 15},
+		{P("ak", 1, "akeys", 2, "acow", 0, "ac0", 226), 4294967280, 15},
+		{P("ak", 2, "akeys", 3, "acow", 0, "ac0", 220, "ac1", 2), 0, 262143},
+	} {
+		for u := 0; u <= 2; u++ {
+			wd := 4
+			if thorough {
+				wd = 6
+			}
+			add(&Instance{Func: "VerifC04Unset", Params: with(b.p, "u", u, "L", 2, "sb", b.sb, "sm", b.sm, "wd", wd)})
 		}
 	}
 }
